@@ -479,3 +479,244 @@ Proof.
     pose proof (chain_starts d (d * (B / d)) (Z.to_nat ((A - d * (B / d)) / d + 1)) 0) as Hc.
     simpl Z.of_nat in Hc. rewrite Z.mul_0_r, Z.add_0_r in Hc. exact Hc.
 Qed.
+
+(* ------------------------------------------------------------------ rejection / totality *)
+Lemma backfill_rejects mx input :
+  (exists s v, In (ESample s None v) input) \/ In EParseErr input ->
+  exists e, backfill mx input = BFRejected e.
+Proof.
+  intros H. unfold backfill, backfill_with, get_min_max.
+  destruct (mm_loop input minInt64 maxInt64) as [A B| |] eqn:E; eauto.
+  exfalso. apply mm_loop_ok_wf in E. destruct H as [(s & v & H)|H]; apply (E _ H).
+Qed.
+
+Lemma backfill_rejected_only_if mx input e : backfill mx input = BFRejected e -> ~ well_formed input.
+Proof.
+  intros H Hw. unfold backfill, backfill_with, get_min_max in H.
+  destruct (mm_loop_wf_ok input Hw minInt64 maxInt64) as (A & B & Hmm). rewrite Hmm in H.
+  destruct (compatible_block_duration mx); [|discriminate].
+  destruct (create_blocks_with _ _ _ _ _); discriminate.
+Qed.
+
+(* never a panic, never an error after some blocks were written (one appender batch per block) *)
+Lemma backfill_total mx input :
+  (exists e, backfill mx input = BFRejected e /\ ~ well_formed input) \/
+  (exists bl, backfill mx input = BFOk bl /\ well_formed input).
+Proof.
+  unfold backfill, backfill_with, get_min_max.
+  destruct (mm_loop input minInt64 maxInt64) as [A B| |] eqn:E.
+  - right. pose proof (mm_loop_ok_wf _ _ _ _ _ E) as Hw.
+    destruct (cbd_spec mx) as (d & Hd & Hin & _). pose proof (block_ranges_pos d Hin) as Hpos.
+    rewrite Hd. unfold create_blocks_with. rewrite align_start_floor by lia.
+    rewrite (loop_spec input d ltac:(lia) Hw _ (d * (B / d)) maxInt64 []); eauto.
+    pose proof (chain_starts d (d * (B / d)) (Z.to_nat ((A - d * (B / d)) / d + 1)) 0) as Hc.
+    simpl Z.of_nat in Hc. rewrite Z.mul_0_r, Z.add_0_r in Hc. exact Hc.
+  - left. eexists. split; eauto. intros Hw.
+    destruct (mm_loop_wf_ok input Hw minInt64 maxInt64) as (A & B & Hmm). congruence.
+  - left. eexists. split; eauto. intros Hw.
+    destruct (mm_loop_wf_ok input Hw minInt64 maxInt64) as (A & B & Hmm). congruence.
+Qed.
+
+(* ------------------------------------------------------------------ alignment *)
+Lemma fold_min_le l : forall m, fold_left (fun m x => Z.min m (s_ts x)) l m <= m /\
+  forall x, In x l -> fold_left (fun m x => Z.min m (s_ts x)) l m <= s_ts x.
+Proof.
+  induction l as [|a l IH]; intros m; simpl; [split; [lia|intros x []]|].
+  destruct (IH (Z.min m (s_ts a))) as [H1 H2]. split; [lia|].
+  intros x [<-|Hx]; [lia|auto].
+Qed.
+
+Lemma fold_min_ge l lo : forall m, lo <= m -> (forall x, In x l -> lo <= s_ts x) ->
+  lo <= fold_left (fun m x => Z.min m (s_ts x)) l m.
+Proof.
+  induction l as [|a l IH]; intros m Hm H; simpl; auto.
+  apply IH; [|intros x Hx; apply H; simpl; auto]. specialize (H a (or_introl eq_refl)). lia.
+Qed.
+
+Lemma fold_max_ge l : forall m, m <= fold_left (fun m x => Z.max m (s_ts x)) l m /\
+  forall x, In x l -> s_ts x <= fold_left (fun m x => Z.max m (s_ts x)) l m.
+Proof.
+  induction l as [|a l IH]; intros m; simpl; [split; [lia|intros x []]|].
+  destruct (IH (Z.max m (s_ts a))) as [H1 H2]. split; [lia|].
+  intros x [<-|Hx]; [lia|auto].
+Qed.
+
+Lemma fold_max_le l hi : forall m, m <= hi -> (forall x, In x l -> s_ts x <= hi) ->
+  fold_left (fun m x => Z.max m (s_ts x)) l m <= hi.
+Proof.
+  induction l as [|a l IH]; intros m Hm H; simpl; auto.
+  apply IH; [|intros x Hx; apply H; simpl; auto]. specialize (H a (or_introl eq_refl)). lia.
+Qed.
+
+(* one block of the result: written for the window [lo, lo + d), lo a multiple of d *)
+Definition block_aligned (d : Z) (b : block) : Prop :=
+  (exists k, b_lo b = d * k) /\ b_samples b <> [] /\
+  (forall x, In x (b_samples b) -> b_lo b <= s_ts x < b_lo b + d) /\
+  b_lo b <= b_mint b /\ b_mint b < b_maxt b /\ b_maxt b <= b_lo b + d /\
+  (forall x, In x (b_samples b) -> b_mint b <= s_ts x < b_maxt b).
+
+Lemma blocks_spec_aligned S d a : 0 < d -> (forall x, In x S -> minInt64 < s_ts x < maxInt64) ->
+  forall ts t, chain d t ts -> (exists k, t = d * (a + k)) ->
+  Forall (block_aligned d) (blocks_spec S d ts) /\
+  (forall b, In b (blocks_spec S d ts) -> t <= b_lo b) /\
+  StronglySorted Z.lt (map b_lo (blocks_spec S d ts)).
+Proof.
+  intros Hd Hr. induction ts as [|s r IH]; intros t Hc Hk.
+  - simpl. repeat split; [constructor|intros b []|constructor].
+  - destruct Hc as [-> Hc]. destruct Hk as (k & Hk).
+    destruct (IH (t + d) Hc) as (IH1 & IH2 & IH3); [exists (k + 1); lia|].
+    unfold blocks_spec in *. cbn [flat_map]. unfold block_of at 1 3 5.
+    destruct (block_samples (window S t (t + d))) as [|x0 k0] eqn:E.
+    + simpl. repeat split; auto. intros b Hb. specialize (IH2 b Hb). lia.
+    + cbn [app map]. repeat split.
+      * constructor; auto. unfold block_aligned. cbn [b_lo b_samples].
+        assert (Hin : forall x, In x (x0 :: k0) -> t <= s_ts x < t + d /\ minInt64 < s_ts x < maxInt64).
+        { intros x Hx. rewrite <- E in Hx. apply block_samples_in, window_in in Hx.
+          destruct Hx as [Hx ?]. split; auto. }
+        split; [exists (a + k); lia|]. split; [discriminate|].
+        split; [intros x Hx; apply Hin; auto|].
+        unfold b_mint, b_maxt. cbn [b_samples].
+        pose proof (fold_min_le (x0 :: k0) maxInt64) as [_ Hmin].
+        pose proof (fold_max_ge (x0 :: k0) minInt64) as [_ Hmax].
+        pose proof (Hin x0 (or_introl eq_refl)) as H0.
+        assert (Hlo : t <= fold_left (fun m x => Z.min m (s_ts x)) (x0 :: k0) maxInt64).
+        { apply fold_min_ge; [unfold maxInt64 in *; lia|intros x Hx; apply Hin; auto]. }
+        assert (Hhi : fold_left (fun m x => Z.max m (s_ts x)) (x0 :: k0) minInt64 <= t + d - 1).
+        { apply fold_max_le; [unfold minInt64 in *; lia|intros x Hx; specialize (Hin x Hx); lia]. }
+        specialize (Hmin x0 (or_introl eq_refl)). pose proof (Hmax x0 (or_introl eq_refl)).
+        repeat split; try lia.
+        -- apply (fold_min_le (x0 :: k0) maxInt64); auto.
+        -- pose proof (Hmax x H1). lia.
+      * intros b [<-|Hb]; [simpl; lia|]. specialize (IH2 b Hb). lia.
+      * constructor; auto. apply Forall_forall. intros lo Hlo.
+        apply in_map_iff in Hlo. destruct Hlo as (b & <- & Hb). specialize (IH2 b Hb). simpl. lia.
+Qed.
+
+Theorem aligned mx input bl : in_range input -> backfill mx input = BFOk bl ->
+  exists d, compatible_block_duration mx = Some d /\ In d block_ranges /\
+    (default_block_duration <= mx -> d <= mx) /\
+    (forall r, In r block_ranges -> r <= mx -> r <= d) /\
+    Forall (block_aligned d) bl /\ StronglySorted Z.lt (map b_lo bl).
+Proof.
+  intros Hr Hbf.
+  destruct (backfill_total mx input) as [(e & He & _)|(bl' & Hbl & Hw)]; [congruence|].
+  destruct (backfill_wf mx input Hw (in_range_strict input Hr)) as (A & B & d & Hmm & Hd & Hpos & Hbf' & Hb).
+  destruct (cbd_spec mx) as (d' & Hd' & Hin & Hle & Hmax).
+  assert (d' = d) by congruence. subst d'.
+  exists d. repeat split; auto.
+  - rewrite Hbf in Hbf'. inversion Hbf'; subst.
+    apply (blocks_spec_aligned (samples_of input) d (B / d) Hpos (in_range_strict input Hr) _ (d * (B / d))).
+    + pose proof (chain_starts d (d * (B / d)) (Z.to_nat ((A - d * (B / d)) / d + 1)) 0) as Hc.
+      simpl Z.of_nat in Hc. rewrite Z.mul_0_r, Z.add_0_r in Hc. exact Hc.
+    + exists 0. lia.
+  - rewrite Hbf in Hbf'. inversion Hbf'; subst.
+    apply (blocks_spec_aligned (samples_of input) d (B / d) Hpos (in_range_strict input Hr) _ (d * (B / d))).
+    + pose proof (chain_starts d (d * (B / d)) (Z.to_nat ((A - d * (B / d)) / d + 1)) 0) as Hc.
+      simpl Z.of_nat in Hc. rewrite Z.mul_0_r, Z.add_0_r in Hc. exact Hc.
+    + exists 0. lia.
+Qed.
+
+(* without the ordering hypothesis nothing is invented and nothing is stored twice *)
+Theorem sound mx input bl : in_range input -> backfill mx input = BFOk bl ->
+  (forall s t v, In (s, t, v) (all_samples bl) -> In (ESample s (Some t) v) input) /\
+  NoDup (map key (all_samples bl)).
+Proof.
+  intros Hr Hbf.
+  destruct (backfill_total mx input) as [(e & He & _)|(bl' & Hbl & Hw)]; [congruence|].
+  destruct (backfill_wf mx input Hw (in_range_strict input Hr)) as (A & B & d & Hmm & Hd & Hpos & Hbf' & Hb).
+  rewrite Hbf in Hbf'. inversion Hbf'; subst. rewrite all_samples_spec. split.
+  - intros s t v H. apply samples_of_in. apply in_flat_map in H. destruct H as (t0 & _ & H).
+    apply block_samples_in, window_in in H. tauto.
+  - eapply flat_nodup; eauto.
+    pose proof (chain_starts d (d * (B / d)) (Z.to_nat ((A - d * (B / d)) / d + 1)) 0) as Hc.
+    simpl Z.of_nat in Hc. rewrite Z.mul_0_r, Z.add_0_r in Hc. exact Hc.
+Qed.
+
+(* ------------------------------------------------------------------ boolean checkers *)
+Lemma sample_eqb_spec x y : sample_eqb x y = true <-> x = y.
+Proof.
+  unfold sample_eqb. destruct x as [[s t] v], y as [[s' t'] v']. unfold s_sid, s_ts, s_val; simpl.
+  destruct (t =? t') eqn:E1; [apply Z.eqb_eq in E1|apply Z.eqb_neq in E1].
+  - destruct (s =? s') eqn:E2; [apply Z.eqb_eq in E2|apply Z.eqb_neq in E2].
+    + rewrite Z.eqb_eq. split; [intros ->; subst; auto|intros H; inversion H; auto].
+    + split; [discriminate|intros H; inversion H; contradiction].
+  - split; [discriminate|intros H; inversion H; contradiction].
+Qed.
+
+Lemma orderedb_spec d l : orderedb d l = true <-> ordered d l.
+Proof.
+  induction l as [|a l IH]; simpl; [tauto|].
+  rewrite andb_true_iff, IH, forallb_forall. split; intros [H1 H2]; split; auto.
+  - intros y Hy Hs Hw. specialize (H1 y Hy). rewrite Hs, Z.eqb_refl in H1.
+    destruct (s_ts a <? s_ts y) eqn:E; [apply Z.ltb_lt in E; auto|].
+    rewrite Hw, Z.eqb_refl in H1. apply sample_eqb_spec in H1. auto.
+  - intros y Hy. destruct (s_sid y =? s_sid a) eqn:E1; auto. apply Z.eqb_eq in E1.
+    destruct (s_ts a <? s_ts y) eqn:E2; auto. apply Z.ltb_ge in E2.
+    destruct (s_ts y / d =? s_ts a / d) eqn:E3; auto. apply Z.eqb_eq in E3.
+    destruct (H1 y Hy E1 E3) as [Hlt|Heq]; [lia|]. apply sample_eqb_spec. auto.
+Qed.
+
+(* ------------------------------------------------------------------ witnesses *)
+Definition ex_input : list entry :=
+  [EOther; ESample 0 (Some (-7200001)) 11; ESample 1 (Some (-1)) 12; ESample 0 (Some (-7200000)) 13;
+   ESample 1 (Some 0) 14; ESample 0 (Some 7199999) 15; ESample 0 (Some 7199999) 15;
+   ESample 1 (Some 50400000) 16].
+
+Lemma two62 : 2 ^ 62 = 4611686018427387904. Proof. reflexivity. Qed.
+
+Lemma ex_input_ok : well_formed ex_input /\ in_range ex_input /\
+  (forall d, compatible_block_duration 0 = Some d -> ordered d (samples_of ex_input)) /\
+  backfill 0 ex_input = BFOk
+    [mkBlock (-14400000) [(0, -7200001, 11)];
+     mkBlock (-7200000) [(1, -1, 12); (0, -7200000, 13)];
+     mkBlock 0 [(1, 0, 14); (0, 7199999, 15)];
+     mkBlock 50400000 [(1, 50400000, 16)]].
+Proof.
+  split; [|split; [|split]].
+  - apply well_formedb_spec. reflexivity.
+  - intros s t v H. rewrite two62. simpl in H.
+    repeat (destruct H as [H|H]; [try discriminate; inversion H; subst; lia|]). destruct H.
+  - intros d Hd. inversion Hd; subst. apply orderedb_spec. reflexivity.
+  - vm_compute. reflexivity.
+Qed.
+
+Definition old_input : list entry := [ESample 0 (Some (-1)) 7; ESample 0 (Some 5) 8].
+
+Lemma partition_old_refuted : exists mx input,
+  well_formed input /\ in_range input /\
+  (forall d, compatible_block_duration mx = Some d -> ordered d (samples_of input)) /\
+  exists bl, backfill_old mx input = BFOk bl /\
+    exists s t v, In (ESample s (Some t) v) input /\ ~ In (s, t, v) (all_samples bl).
+Proof.
+  exists 0, old_input. split; [|split; [|split]].
+  - apply well_formedb_spec. reflexivity.
+  - intros s t v H. rewrite two62. simpl in H.
+    repeat (destruct H as [H|H]; [try discriminate; inversion H; subst; lia|]). destruct H.
+  - intros d Hd. inversion Hd; subst. apply orderedb_spec. reflexivity.
+  - eexists. split; [vm_compute; reflexivity|].
+    exists 0, (-1), 7. split; [simpl; auto|]. simpl. intros [H|[]]. inversion H.
+Qed.
+
+(* the tree's version stores both samples of the same input *)
+Lemma old_input_fixed : backfill 0 old_input = BFOk [mkBlock (-7200000) [(0, -1, 7)]; mkBlock 0 [(0, 5, 8)]].
+Proof. vm_compute. reflexivity. Qed.
+
+Definition unordered_input : list entry := [ESample 0 (Some 7199999) 3; ESample 0 (Some 100000) 2].
+
+(* the ordering hypothesis of [partition] cannot be dropped: a series whose lines go back in
+   time inside one block window loses samples, and the run still succeeds *)
+Lemma partition_unordered_refuted : exists mx input,
+  well_formed input /\ in_range input /\
+  exists bl, backfill mx input = BFOk bl /\
+    exists s t v, In (ESample s (Some t) v) input /\ ~ In (s, t, v) (all_samples bl).
+Proof.
+  exists 0, unordered_input. split; [|split].
+  - apply well_formedb_spec. reflexivity.
+  - intros s t v H. rewrite two62. simpl in H.
+    repeat (destruct H as [H|H]; [try discriminate; inversion H; subst; lia|]). destruct H.
+  - eexists. split; [vm_compute; reflexivity|].
+    exists 0, 100000, 2. split; [simpl; auto|]. simpl. intros [H|[]]. inversion H.
+Qed.
+
+Lemma reject_example : backfill 0 [ESample 0 (Some 5) 1; ESample 1 None 2; ESample 0 (Some 7200005) 3] = BFRejected RejNoTs.
+Proof. reflexivity. Qed.
